@@ -34,3 +34,28 @@ package schemas
 //@   assigns nothing
 //@   ensures [C11,C03] nil-receiver: t == nil ==> !result
 //@   ensures [C11,C03] elementwise: t != nil ==> (result <==> *t == b)
+
+// ---- legacy spellings decode to the current fields (C13) ------------------------
+// encoding/json is external (assumed: a decode fails, or sets the target's
+// fields); decoded(k, F) is what the k-th successful decode of the call put into
+// field F. After a successful UnmarshalJSON the current field holds the current
+// keyword's value if there was one, else the legacy keyword's.
+//@ func (*Type).UnmarshalJSON
+//@   props C13
+//@   option json-havoc Definitions DependentSchemas Dependencies
+//@   option noframe
+//@   shape value = new
+//@   option shape-zero value.
+//@   ensures [C13] definitions-fallback: result == nil && decode_happened(2, "Definitions") ==> value.Definitions == (decoded(1, "Definitions") != nil ? decoded(1, "Definitions") : decoded(2, "Definitions"))
+//@   ensures [C13] dependencies-fallback: result == nil && decode_happened(2, "Dependencies") ==> value.DependentSchemas == (decoded(1, "DependentSchemas") != nil ? decoded(1, "DependentSchemas") : decoded(2, "Dependencies"))
+//@   ensures [C13,C18] decode-errors-propagate: !decode_happened(0, "bool") && !decode_happened(2, "Definitions") ==> result != nil
+
+//@ func (*Schema).UnmarshalJSON
+//@   props C13
+//@   option json-havoc ID LegacyID Definitions
+//@   option noframe
+//@   shape s = new
+//@   option shape-zero s.
+//@   ensures [C13] id-current-wins: result == nil && decoded(0, "ID") != "" ==> s.ID == decoded(0, "ID")
+//@   ensures [C13] id-fallback: result == nil && decoded(0, "ID") == "" ==> s.ID == decoded(0, "LegacyID")
+//@   ensures [C13] definitions-fallback: result == nil ==> s.Definitions == (decoded(0, "Definitions") != nil ? decoded(0, "Definitions") : decoded(1, "Definitions"))
